@@ -1,5 +1,7 @@
 import FluteModel.Lemmas.SessionObjRecv
 import FluteModel.Lemmas.SessionFlush
+import FluteModel.Lemmas.SessionBlock
+import FluteModel.Lemmas.SessionNoCode
 import FluteModel.Lemmas.NoCodeSession
 import FluteModel.Props.C09
 /-
@@ -8,9 +10,12 @@ import FluteModel.Props.C09
   object) against the line-by-line model `Flute.ObjRecv` of objectreceiver.rs / blockdecoder.rs / blockwriter.rs, on genuine histories
   of ONE object.  Definitions and proofs: Lemmas/SessionObjRecv.lean.
 
-  PROVED, with ONE named hypothesis left - `Link.BlockStep Z`: the block path `push_to_block2 ~ Session.pushCore` - and the side
-  conditions `Setting.OK` (the two configurations tied together; all-accepting writer; codec decodability = `dec` as contract fields
-  `decExt` / `decNil`; `preLt`) and `GenEv` / `FileOK` (genuine events):
+  PROVED; no step hypothesis is left.  What the theorems assume is (a) the side conditions `Setting.OK` (the two configurations tied
+  together; all-accepting writer; `decExt` / `decNil`; `preLt`), (b) `GenEv` / `FileOK` (genuine events), and (c) the CODEC CONTRACT
+  `Link.CodecDec Z` (Lemmas/SessionBlock.lean) - `BlockDecoder::init` succeeds on a block of the object, and over REACHABLE decoder
+  states (`ReachBlk`: built by `init`, fed genuine symbols) `BlockDecoder::push` adds the ESI to the held set, `completed` is
+  `Setting.dec` of the held ESIs, and a completed block has its source block.  (c) is to `Setting.dec` what `GSess.Laws.codec` is to the
+  bytes: the FEC crates are not modelled, `Params.codec` is a parameter.
     * `receiver_simulation`       - MAIN THEOREM: over every genuine history of one object the ObjRecv run returns and its final state
                                     is related to the Session model's (`Rel`: live object simulated `SimCore`, dead object gone,
                                     writer calls open / complete / error / interrupted = the counters);
@@ -33,39 +38,40 @@ import FluteModel.Props.C09
                                     `advance` (`flush_loop`: BlockWriter::write of each completed head block, pop_front, exact byte
                                     accounting `bytes_left + |first sbn blocks| = |T|`), `complete()` exactly when all blocks are
                                     written, Content-Length / MD5 pass.
-  OPEN - `Link.BlockStep Z` (= the former `Steps.block2B_step`): push_to_block2 on a live, partitioned, non-empty object whose deque
-  head is not a completed block: SBN window, look-ahead limit, allocation limit, BlockDecoder::init/push against `got`, and the
-  flush from the pushed block.  What it needs: the decoder-holds-ESIs bookkeeping under `BlockDecoder::push`, the counting
-  `distinctSbns` / `allocBytes` = nb_allocated_blocks / total_allocated_blocks_size (`TInv.cnt`), blocks.len() <= 4097, and
-  `flush_loop` once more (from `pid.sbn` instead of 0).
-  Executable evidence for it: see the end of the file.  DIVERGENCES between the two models (side conditions): header of
+    * `block_path_step`           - THE BLOCK PATH (Lemmas/SessionBlock.lean, `blockStep_of_contract`): push_to_block2 on a live,
+                                    partitioned, non-empty object whose deque head is not a completed block  ~  `pushCore`: SBN
+                                    window, look-ahead limit (blocks.len() <= 4097 is `SimF.len`), allocation limit
+                                    (`alloc_counts`: `distinctSbns` / `allocBytes` = nb_allocated_blocks /
+                                    total_allocated_blocks_size via `TInv.cnt`), BlockDecoder::init / push against `got`
+                                    (`simB_store`), and the flush from the pushed block (`settle_at`: `flush_loop` again).
+  Executable evidence: see the end of the file.  DIVERGENCES between the two models (side conditions): header of
   Lemmas/SessionObjRecv.lean.
 -/
 namespace Flute.Props.C02.Link
 open Flute Flute.FecDec Flute.ObjRecv Flute.Link
 
 /-- MAIN THEOREM (composition of the step lemmas) -/
-theorem receiver_simulation (Z : Setting) (hZ : Z.OK) (hb : BlockStep Z) (toi : Nat) (ops : List Op) (evs : List LEv)
+theorem receiver_simulation (Z : Setting) (hZ : Z.OK) (hC : CodecDec Z) (toi : Nat) (ops : List Op) (evs : List LEv)
     (hh : Hist Z ops evs) :
     ∃ st', runL Z.P (St.new toi Z.maxSize) ops = .ok st' ∧ Good Z st' ∧
       Rel Z st' (objRun Z { obj := some Session.rx0 } evs) :=
-  runL_rel Z hZ (steps_of_block Z hZ hb) ops evs hh _ _ (good_new Z hZ toi) (rel_new Z toi)
+  runL_rel Z hZ (steps_of_block Z hZ (blockStep_of_contract Z hZ hC)) ops evs hh _ _ (good_new Z hZ toi) (rel_new Z toi)
 
 /-- COROLLARY: `complete` in the Session model  =>  `complete` on the ObjRecv writer, with exactly the object's bytes -/
-theorem session_complete_is_exact (Z : Setting) (hZ : Z.OK) (hb : BlockStep Z) (toi : Nat) (ops : List Op) (evs : List LEv)
+theorem session_complete_is_exact (Z : Setting) (hZ : Z.OK) (hC : CodecDec Z) (toi : Nat) (ops : List Op) (evs : List LEv)
     (hh : Hist Z ops evs) (hc : 0 < (objRun Z { obj := some Session.rx0 } evs).completes) :
     ∃ st', runL Z.P (St.new toi Z.maxSize) ops = .ok st' ∧ ¬ noComplete st'.out ∧ st'.written = Z.S.T :=
-  complete_sound Z hZ (steps_of_block Z hZ hb) toi ops evs hh hc
+  complete_sound Z hZ (steps_of_block Z hZ (blockStep_of_contract Z hZ hC)) toi ops evs hh hc
 
 /-- the counters of the Session model are the writer calls of ObjRecv -/
-theorem counters_are_writer_calls (Z : Setting) (hZ : Z.OK) (hb : BlockStep Z) (toi : Nat) (ops : List Op) (evs : List LEv)
+theorem counters_are_writer_calls (Z : Setting) (hZ : Z.OK) (hC : CodecDec Z) (toi : Nat) (ops : List Op) (evs : List LEv)
     (hh : Hist Z ops evs) :
     ∃ st', runL Z.P (St.new toi Z.maxSize) ops = .ok st' ∧
       (objRun Z { obj := some Session.rx0 } evs).completes = cnt isComplete st'.out ∧
       (objRun Z { obj := some Session.rx0 } evs).errors = cnt isError st'.out ∧
       (objRun Z { obj := some Session.rx0 } evs).interrupts = cnt isInterrupted st'.out ∧
       (objRun Z { obj := some Session.rx0 } evs).opens = cnt isOpenOk st'.out :=
-  complete_complete Z hZ (steps_of_block Z hZ hb) toi ops evs hh
+  complete_complete Z hZ (steps_of_block Z hZ (blockStep_of_contract Z hZ hC)) toi ops evs hh
 
 theorem objStep_is_stepObj_pkt (Z : Setting) (os : Session.OState) (rx : Session.ORx) (s : Session.Sym)
     (hobj : os.obj = some rx) (hc : os.completed = false) :
@@ -113,12 +119,15 @@ theorem close_flag_step (Z : Setting) (H : Steps Z) (st st1 : St) (b : Bool) (os
   block_step Z H st st1 b os rx p s hg hr hrec hobj hsim g hoti hn h
 
 /-- DISCHARGED step: `attach_fdt` with the File entry of the object on a live, not yet attached object -/
-theorem attach_step (Z : Setting) (hZ : Z.OK) (hb : BlockStep Z) (st st' : St) (b : Bool) (os : Session.OState) (rx : Session.ORx)
+theorem attach_step (Z : Setting) (hZ : Z.OK) (hC : CodecDec Z) (st st' : St) (b : Bool) (os : Session.OState) (rx : Session.ORx)
     (id : Nat) (f : FileEntry) (hg : Good Z st) (hr : Rel Z st os) (hrec : st.state = .receiving) (hobj : os.obj = some rx)
     (hsim : SimCore Z st rx) (hatt : rx.attached = false) (fo : FileOK Z f)
     (h : attachFdt Z.P st id (some f) = .ok (st', b)) :
     Rel Z st' (Session.finish Z.oc { os with opens := os.opens + 1 } (Session.attach Z.dec Z.rc Z.oc rx)) :=
-  attach_live Z hZ (steps_of_block Z hZ hb) st st' b os rx id f hg hr hrec hobj hsim hatt fo h
+  attach_live Z hZ (steps_of_block Z hZ (blockStep_of_contract Z hZ hC)) st st' b os rx id f hg hr hrec hobj hsim hatt fo h
+
+/-- THE BLOCK PATH - DISCHARGED under the codec contract: `push_to_block2 ~ Session.pushCore` -/
+theorem block_path_step (Z : Setting) (hZ : Z.OK) (hC : CodecDec Z) : BlockStep Z := blockStep_of_contract Z hZ hC
 
 /-- DISCHARGED step (no hypothesis): `write_blocks(0)` on the attached object  ~  `Session.settle` -/
 theorem flush_at_attach (Z : Setting) (hZ : Z.OK) (st st1 : St) (ok : Bool) (os : Session.OState) (rx : Session.ORx)
@@ -132,7 +141,7 @@ theorem flush_at_attach (Z : Setting) (hZ : Z.OK) (st st1 : St) (ok : Bool) (os 
 theorem initial_states_related (Z : Setting) (toi : Nat) :
     Rel Z (St.new toi Z.maxSize) { obj := some Session.rx0 } := rel_new Z toi
 
-/-! ### executable evidence for the two open step hypotheses
+/-! ### executable evidence
 
 Both models are executable.  On the instance below (No-Code, E = 2, B = 2, 6 bytes = blocks of 2 + 1 symbols, all-accepting writer) and
 on the 3-block instance (10 bytes), EVERY permutation of {all packets, one FDT attach}, with and without in-band FTI, with a B flag
@@ -159,5 +168,113 @@ example :
      | .ok st => some (cnt isOpenOk st.out, cnt isComplete st.out, cnt isError st.out, cnt isInterrupted st.out, st.written)
      | .error _ => none) = some (os.opens, os.completes, os.errors, os.interrupts, [1, 2, 3, 4, 5, 6]) ∧
     os.completes = 1 := by decide
+
+/-! ### NON-VACUITY: every hypothesis of the headline theorems holds for a concrete setting and a concrete history -/
+
+/-- the codec contract holds for Compact No-Code (any `Params.codec`) -/
+theorem codec_contract_holds_for_nocode (Z : Setting) (N : NoCodeSetting Z) : CodecDec Z := codecDec_noCode Z N
+
+def o0 : Oti := ⟨.noCode, 2, 2, 0, none⟩
+
+/-- No-Code, E = 2, B = 2, the 6-byte object [1..6] = blocks of 2 + 1 symbols, all-accepting writer, limits 1000 -/
+def Z0 : Setting :=
+  { P := C09.P0 true, S := noCodeSession [1, 2, 3, 4, 5, 6] o0,
+    oc := { toi := 1, scheme := .nocode, ks := #[2, 1], blen := #[4, 2], p := 0, inbandFti := false, transfers := 1,
+            carousel := false, noCache := false, pktLen := 20, lastPktLen := 20 },
+    rc := { receiveOnce := true, maxSize := 1000, pktCap := some 1000 },
+    dec := Session.canDecodeOf .nocode, maxSize := 1000 }
+
+def pk0 (sbn esi : Nat) : Pkt :=
+  { toi := 1, cp := .noCode, close := false, fti := none, cenc := none, pid := [0, sbn, 0, esi], payload := Z0.S.sym sbn esi,
+    dataLen := 20 }
+
+def fe0 : FileEntry := { oti := some o0, tl := 6, cl := some 6, cenc := .null, md5 := none, noCache := false }
+
+theorem Z0_n : Z0.S.n = 2 := by decide
+
+theorem lt2 {b : Nat} (h : b < 2) : b = 0 ∨ b = 1 := by omega
+
+theorem Z0_ok : Z0.OK where
+  laws := noCodeSession_laws _ _ _ rfl (by decide) (by decide) (by decide) (by decide)
+  nblocks := by decide
+  ks := by
+    intro b hb
+    rw [Z0_n] at hb
+    rcases lt2 hb with rfl | rfl <;> decide
+  empty := by intro h; rw [Z0_n] at h; cases h
+  max := rfl
+  look := rfl
+  cap := rfl
+  small := by decide
+  env := fun _ => ⟨rfl, rfl, fun _ => rfl⟩
+  dz := ⟨DzOK.ofNoData _ (fun _ _ _ _ h => by cases h) (fun _ => by show (0 : Nat) < 10; omega)⟩
+  decExt := by
+    intro k p a b h
+    show Session.allBelow k a = Session.allBelow k b
+    apply Bool.eq_iff_iff.mpr
+    rw [allBelow_iff, allBelow_iff]
+    exact ⟨fun q i hi => (h i).mp (q i hi), fun q i hi => (h i).mpr (q i hi)⟩
+  decNil := by
+    intro b hb
+    rw [Z0_n] at hb
+    rcases lt2 hb with rfl | rfl <;> decide
+  preLt := by
+    intro k hk
+    rw [Z0_n] at hk
+    rcases lt2 hk with rfl | rfl <;> decide
+
+theorem Z0_nocode : NoCodeSetting Z0 where
+  scheme := rfl
+  oscheme := rfl
+  dec := rfl
+  ks := Z0_ok.ks
+  k := by
+    intro b hb
+    rw [Z0_n] at hb
+    rcases lt2 hb with rfl | rfl <;> decide
+
+theorem genEv0_00 : GenEv Z0 (pk0 0 0) ⟨0, 0, false⟩ := by
+  refine ⟨⟨.inl rfl, .inl rfl, ⟨0, 0, none⟩, rfl, fun _ => ⟨by decide, rfl, .inl rfl⟩⟩, rfl, rfl, rfl, by decide,
+    (fun o l hh => by cases hh), by decide, by decide, ?_⟩
+  intro pid hpid
+  have h2 : parsePayloadId Z0.S.o (pk0 0 0) = .ok (some ⟨0, 0, none⟩) := rfl
+  rw [h2] at hpid
+  cases hpid
+  exact ⟨fun _ => rfl, fun l hl => by cases hl⟩
+
+theorem genEv0_01 : GenEv Z0 (pk0 0 1) ⟨0, 1, false⟩ := by
+  refine ⟨⟨.inl rfl, .inl rfl, ⟨0, 1, none⟩, rfl, fun _ => ⟨by decide, rfl, .inl rfl⟩⟩, rfl, rfl, rfl, by decide,
+    (fun o l hh => by cases hh), by decide, by decide, ?_⟩
+  intro pid hpid
+  have h2 : parsePayloadId Z0.S.o (pk0 0 1) = .ok (some ⟨0, 1, none⟩) := rfl
+  rw [h2] at hpid
+  cases hpid
+  exact ⟨fun _ => rfl, fun l hl => by cases hl⟩
+
+theorem genEv0_10 : GenEv Z0 (pk0 1 0) ⟨1, 0, false⟩ := by
+  refine ⟨⟨.inl rfl, .inl rfl, ⟨1, 0, none⟩, rfl, fun _ => ⟨by decide, rfl, .inl rfl⟩⟩, rfl, rfl, rfl, by decide,
+    (fun o l hh => by cases hh), by decide, by decide, ?_⟩
+  intro pid hpid
+  have h2 : parsePayloadId Z0.S.o (pk0 1 0) = .ok (some ⟨1, 0, none⟩) := rfl
+  rw [h2] at hpid
+  cases hpid
+  exact ⟨fun _ => rfl, fun l hl => by cases hl⟩
+
+theorem fileOK0 : FileOK Z0 fe0 :=
+  ⟨⟨.inr rfl, rfl, rfl⟩, rfl, rfl, .inr rfl, by decide, fun o ho => by cases ho; decide⟩
+
+/-- block 1, then half of block 0, then the FDT, then the rest -/
+def ops0 : List Op := [.push (pk0 1 0), .push (pk0 0 1), .attach 7 (some fe0), .push (pk0 0 0)]
+def evs0 : List LEv := [.pkt ⟨1, 0, false⟩, .pkt ⟨0, 1, false⟩, .att, .pkt ⟨0, 0, false⟩]
+
+theorem hist0 : Hist Z0 ops0 evs0 :=
+  .cons (.pkt genEv0_10) (.cons (.pkt genEv0_01) (.cons (.att fileOK0) (.cons (.pkt genEv0_00) .nil)))
+
+/-- THE HEADLINE THEOREMS ARE NOT VACUOUS: on this setting and history every hypothesis is PROVED (`Z0_ok`, No-Code `CodecDec`,
+    `hist0`, the Session model completes), so the conclusion - the ObjRecv run returns, its writer was told `complete`, the bytes it
+    accepted are the object - is obtained FROM the theorem, not by evaluation -/
+theorem headline_theorems_apply :
+    ∃ st', runL Z0.P (St.new 1 1000) ops0 = .ok st' ∧ ¬ noComplete st'.out ∧ st'.written = [1, 2, 3, 4, 5, 6] :=
+  session_complete_is_exact Z0 Z0_ok (codecDec_noCode Z0 Z0_nocode) 1 ops0 evs0 hist0 (by decide)
 
 end Flute.Props.C02.Link
